@@ -5,7 +5,7 @@ import "errors"
 // C02 — the decoder accepts exactly RFC 5389 framing and reports its TLV list.
 
 func vh_C02_framing() {
-	k := vxK(2, 3)
+	k := 2 // unrolled: every header-level case and up to 2 TLVs; the per-TLV equivalence for any count is vh_C01_decode_induct
 	vxUnwind(k, true)
 	raw := vxRawBuf()
 	m := &Message{Raw: raw}
